@@ -482,6 +482,19 @@ class Ledger:
                     dst = b.ty(t["dest"]["ty"])
                     if dst["k"] == "array" and hv[1] is not None and dst.get("len") == hv[1]:
                         return "A2 try_into of a slice of exact length %d" % dst["len"]
+                if rs[2] in ("try_into", "try_from") and rs[3]:
+                    # an item of a chunks_exact(K) iterator (possibly truncated by take) has exactly K bytes
+                    src_ = df.strip(rs[3][0])
+                    while src_[0] == "field":
+                        src_ = df.strip(src_[1])
+                    dst = b.ty(t["dest"]["ty"])
+                    if src_[0] == "call" and src_[2] == "next" and ("::<Take as " in src_[1] or "::<ChunksExact as " in src_[1]) \
+                            and dst["k"] == "array":
+                        ks = [rg.op_range(t2["args"][1]) for bi2, t2, c2 in mir.iter_calls(b, name="chunks_exact")]
+                        nexts = [c2 for bi2, t2, c2 in mir.iter_calls(b, name="next")]
+                        if ks and all(k_ is not None and k_[0] == k_[1] == dst.get("len") for k_ in ks) and len(nexts) == 1:
+                            return "A2 item of a chunks_exact(%d) iterator (every chunks_exact of this body has that size): " \
+                                   "exactly %d bytes" % (ks[0][0], ks[0][0])
                 if rs[2] == "try_into" and exact_len(b, pv, rs[3][0]) is not None:
                     dst = b.ty(t["dest"]["ty"])
                     if dst["k"] == "array" and dst.get("len") == exact_len(b, pv, rs[3][0]):
@@ -874,6 +887,29 @@ def fresh_list_push(b, pv, t, c):
         if tr2 == tr:
             pushes.append(bi)
     g = mir.cfg(b)
+    # one push per iteration of a loop driven by an iterator truncated with take(n), n <= CAP
+    if len(pushes) == 1 and g.succ[pushes[0]] and pushes[0] in g.reachable_from(g.succ[pushes[0]][0]):
+        lits = c.must_literals(pushes[0])
+        drv = None
+        for l_ in lits:
+            if l_[0] == "variant" and set(l_[2]) == {"Some"}:
+                x_ = df.strip(l_[1])
+                if x_[0] == "call" and x_[2] == "next" and "::<Take as " in x_[1]:
+                    drv = x_
+        takes = [(bi2, t2) for bi2, t2, c2 in mir.iter_calls(b, name="take") if "iter" in c2["path"]]
+        if drv is not None and len(takes) == 1:
+            n_ = df.canon(pv.op_tree(takes[0][1]["args"][1]), b)
+            n_ok = (n_.isdigit() and int(n_) <= cap)
+            if n_.startswith("capacity("):
+                # capacity() of an ArrayVec with the same capacity parameter
+                at = takes[0][1]["args"][1]
+                for bi3, t3, c3 in mir.iter_calls(b, name="capacity"):
+                    rt_ = b.ty(b.local_ty(mir.op_place(t3["args"][0])["l"])["to"]) if mir.op_place(t3["args"][0]) and \
+                        b.local_ty(mir.op_place(t3["args"][0])["l"])["k"] == "ref" else None
+                    if rt_ and any(isinstance(a_, dict) and a_.get("v") == cap for a_ in rt_.get("args", [])):
+                        n_ok = True
+            if n_ok and g.dominates(takes[0][0], pushes[0]):
+                return "A6 one push per iteration of a loop over take(%s) into a fresh ArrayVec of capacity %d" % (n_, cap)
     # longest chain of push blocks along any path (no push block may reach itself)
     for x in pushes:
         if x in g.reachable_from(g.succ[x][0]) if g.succ[x] else False:
